@@ -88,13 +88,36 @@ def strategy(tier):
 
 class Clock:
     ticks = 0
+    phase = 0       # in 1/4096 s: the clock does not run on a round grid
 
     def __call__(self):
-        return self.ticks / 8
+        return self.phase / 4096 + self.ticks / 8
+
+
+def enumerate_cases(tier):
+    """the decisive updates right before, at and after the moving time, on a
+    clock whose readings are not multiples of a millisecond (all readings
+    and their differences are exact binary fractions)"""
+    for mt in (4, 40, 480):
+        for safe in (False, True):
+            for phase in (0, 1, 3, 5, 2047, 2049, 4095):
+                for sw in ([False, False], [True, True]):
+                    for start in (0, 801):
+                        ops = [["advance", start], ["reset"],
+                               ["switches", sw], ["target", True],
+                               ["advance", mt - 1], ["update"],
+                               ["advance", 1], ["update"], ["advance", 1],
+                               ["update"], ["reset"], ["advance", mt],
+                               ["update"], ["update"]]
+                        yield {"moving_ticks": mt, "safe_state": safe,
+                               "ops": ops, "decl": "packet",
+                               "bits": [0, 1, 0], "other_out": 0,
+                               "phase": phase}
 
 
 def run_case(case):
     clock = Clock()
+    clock.phase = case.get("phase", 0)
     old = devices.monotonic
     devices.monotonic = clock
     try:
